@@ -235,11 +235,38 @@ def check_property(pid: str, tier: str) -> int:
     # replay known-finding witnesses: a finding that no longer fails is simply not printed
     printed = set()
     for kf, r in known_hit:
-        key = kf.get("id", kf["match"])
+        key = kf.get("group", kf.get("id", kf["match"]))
         if key in printed:
             continue
         printed.add(key)
         lines.append(f"KNOWN-FINDING: property={pid} {kf['what_fails']}")
+    # listed findings this run did not happen to hit: replay their stored witness against the real code
+    pending = {}
+    for kf in known:
+        key = kf.get("group", kf.get("id", kf["match"]))
+        if key not in printed and key not in pending and kf.get("kind") == "oracle" and kf.get("witness"):
+            pending[key] = kf
+    if pending:
+        from concurrent.futures import ThreadPoolExecutor
+        (OUT / "replay").mkdir(parents=True, exist_ok=True)
+
+        def _replay(item):
+            key, kf = item
+            tmp = OUT / "replay" / f"known_{pid}_{abs(hash(key)) % 10**8}.json"
+            tmp.write_text(json.dumps({"property": pid, "failure": {"signature": kf["match"], "input": kf["witness"]}}, default=str))
+            try:
+                p = subprocess.run([VENV_PY, str(HERE / "replay" / "run.py"), "--replay", str(tmp)], capture_output=True, text=True, timeout=120)
+                return key, kf, '"still_fails": true' in p.stdout
+            except subprocess.TimeoutExpired:
+                return key, kf, "hang" in kf["match"]
+            finally:
+                tmp.unlink(missing_ok=True)
+
+        with ThreadPoolExecutor(8) as ex:
+            for key, kf, still in ex.map(_replay, pending.items()):
+                if still:
+                    printed.add(key)
+                    lines.append(f"KNOWN-FINDING: property={pid} {kf['what_fails']}")
 
     (OUT / "replay").mkdir(parents=True, exist_ok=True)
     vcount = 0
